@@ -49,11 +49,19 @@ namespace sim
 	{
 		std::size_t ret = 0;
 		std::size_t last_executed = 0;
+
+		// a stopped simulation does nothing until it is restarted
+		if (m_stopped) return 0;
+
 		do {
 
 			m_service.restart();
 			last_executed = m_service.poll();
 			ret += last_executed;
+
+			// stop() was called by one of the handlers: leave the clock and the
+			// timers alone
+			if (m_stopped) break;
 
 			chrono::high_resolution_clock::time_point now
 				= chrono::high_resolution_clock::now();
